@@ -307,3 +307,50 @@ func isSyncState(t types.Type) bool {
 	s := t.String()
 	return strings.HasPrefix(s, "sync.") || strings.HasPrefix(s, "*sync.") || strings.HasPrefix(s, "sync/atomic.")
 }
+
+// ssaReadOnly: every use of the slice value only reads it.
+func ssaReadOnly(v ssa.Value, depth int) bool {
+	refs := v.Referrers()
+	if refs == nil || depth > 4 {
+		return refs == nil
+	}
+	for _, r := range *refs {
+		switch r := r.(type) {
+		case *ssa.DebugRef:
+		case *ssa.Range, *ssa.Next:
+		case *ssa.IndexAddr:
+			// element address: must only be loaded from
+			ir := r.Referrers()
+			if ir != nil {
+				for _, u := range *ir {
+					switch u := u.(type) {
+					case *ssa.UnOp:
+						if u.Op != token.MUL {
+							return false
+						}
+					case *ssa.FieldAddr:
+						if addrStored(u) {
+							return false
+						}
+					case *ssa.DebugRef:
+					default:
+						return false
+					}
+				}
+			}
+		case *ssa.Call:
+			// len(v) / cap(v)
+			if b, ok := r.Call.Value.(*ssa.Builtin); ok && (b.Name() == "len" || b.Name() == "cap") {
+				continue
+			}
+			return false
+		case *ssa.Phi:
+			if !ssaReadOnly(r, depth+1) {
+				return false
+			}
+		default:
+			return false
+		}
+	}
+	return true
+}
